@@ -47,6 +47,9 @@ func detectDuplicateStamps(list interface{}) error {
 	set := []*Stamp{}
 	// loop through and check order of Since value
 	for _, v := range values {
+		if v == nil {
+			return errors.New("must not contain empty entries")
+		}
 		if v.In(set) {
 			return fmt.Errorf("duplicate stamp '%v'", v.Provider)
 		}
